@@ -50,6 +50,9 @@ impl Sub for RoundTrip {
     fn max_shrink_iters(&self) -> u32 {
         16
     }
+    fn batch(&self) -> usize {
+        1
+    }
     fn strategy(&self, _env: &Env) -> BoxedStrategy<RoundTripCase> {
         (prop_oneof![4 => Just(512usize), 1 => Just(1024usize)], gen::seed_strategy(), proptest::collection::vec(any::<u64>(), 8))
             .prop_map(|(n, s, sigs)| RoundTripCase { n, seed: seed_hex(&s), sigs, origin: "generated".into() })
